@@ -3,13 +3,42 @@ package harness
 import (
 	"bytes"
 	"fmt"
+	"io"
+	"log"
 	"net"
+	"sort"
+	"sync"
 	"testing"
 
 	"git.sr.ht/~adrian-blx/psa-dhcp/lib/dhcpmsg"
 	"git.sr.ht/~adrian-blx/psa-dhcp/lib/layer"
 	"git.sr.ht/~adrian-blx/psa-dhcp/lib/oui"
+	"git.sr.ht/~adrian-blx/psa-dhcp/lib/server/ylog"
 )
+
+// registryMACs: hardware addresses whose vendor prefix is in the compiled-in registry, two per length of vendor name
+// (what the server does with a packet must not depend on how its sender's vendor is called), shortest names first.
+var registryMACs = sync.OnceValue(func() [][]byte {
+	byLen := map[int][][]byte{}
+	for _, hi := range []uint32{0x00, 0x08, 0x3c, 0x52, 0xac, 0xf0} {
+		for lo := uint32(0); lo < 1<<16; lo++ {
+			mac := []byte{byte(hi), byte(lo >> 8), byte(lo), 0x12, 0x34, 0x56}
+			if name, ok := oui.Lookup(net.HardwareAddr(mac)); ok && len(byLen[len(name)]) < 2 {
+				byLen[len(name)] = append(byLen[len(name)], mac)
+			}
+		}
+	}
+	var lens []int
+	for l := range byLen {
+		lens = append(lens, l)
+	}
+	sort.Ints(lens)
+	var out [][]byte
+	for _, l := range lens {
+		out = append(out, byLen[l]...)
+	}
+	return out
+})
 
 // receivePath runs what the server loop (run.go) and the client filter (dclient/netio.go) do with a frame up to the
 // point where a handler would be started.  Returns whether the frame reaches a handler, or panics.
@@ -27,7 +56,7 @@ func receivePath(b []byte) (handled bool) {
 		return false
 	}
 	opts := dhcpmsg.DecodeOptions(m.Options)
-	oui.Lookup(m.ClientMAC) // ylog.New
+	ylog.New(log.New(io.Discard, "", 0), *m, opts).Printf("%d", 1) // first thing a handler does
 	_ = fmt.Sprintf("%s %v %v", m.ClientMAC, opts.RequestedIP, net.IP(opts.ServerIdentifier))
 	return v4.Protocol == 0x11 && m.Op == dhcpmsg.OpRequest
 }
@@ -64,6 +93,13 @@ func TestC10Malformed(t *testing.T) {
 		m := cl.msg(1, 0, 0)
 		m.hlen = byte(hl)
 		feed("hlen", udpip(0, 0xffffffff, 68, 67, 17, 64, m.bytes()))
+	}
+	// senders of every registered vendor-name length, each message type
+	for _, mac := range registryMACs() {
+		for _, typ := range []byte{1, 3, 4, 7, 8} {
+			rc := &simClient{mac: mac, xid: 0x55667788}
+			feed("vendor", udpip(0, 0xffffffff, 68, 67, 17, 64, rc.msg(typ, 0, 0).bytes()))
+		}
 	}
 	// option areas over a structural alphabet, exhaustively up to a length, then random longer ones
 	alpha := []byte{0, 255, 53, 1, 61, 4, 200}
